@@ -138,9 +138,12 @@ Proof. vm_compute. reflexivity. Qed.
    dynamic JUMP reaches when its address is on the stack. *)
 Theorem asm_cfg_check_sound : forall f asm cert, asm_cfg_check f asm cert = true ->
   forall b s tb T, pos_of cert b = Some (s, tb) -> last_inst (nth_block f b) = Some T ->
-    (forall top st t, vsel T top = Some t ->
-       exists k sr, start_of cert (res f cert t) = Some sr /\
-         csteps asm k (tb, if String.eqb (i_op T) "jnz" then top :: st else st) = Some (sr, st)) /\
+    exists k neg, term_len f asm cert (nth_block f b) T tb = Some (k, neg) /\
+    (* neg: the peephole fused the ISZERO of the lowering with the `c = iszero x` that ends the block; the stack holds x *)
+    (neg = true -> cond_is_iszero (nth_block f b) = true) /\
+    (forall top st t, vsel T (if neg then isz top else top) = Some t ->
+       exists n sr, start_of cert (res f cert t) = Some sr /\
+         csteps asm n (tb, if String.eqb (i_op T) "jnz" then top :: st else st) = Some (sr, st)) /\
     (i_op T = "djmp" -> forall t st, In t (labels_of (i_args T)) ->
        exists sr, start_of cert (res f cert t) = Some sr /\ nth_error asm sr = Some (ALabel (res f cert t)) /\
                   cstep asm (tb, Z.of_nat sr :: st) = Some (sr, st)).
